@@ -406,7 +406,12 @@ impl PacketReceiver {
     // comes first. Any incomplete or dropped packets are skipped, and as a result, the sender must
     // ensure that all reliable packets have been received in full prior to issuing the request.
     pub fn resynchronize(&mut self, sender_next_id: u32) {
-        debug_assert!(packet_id::is_valid(sender_next_id));
+        if !packet_id::is_valid(sender_next_id) {
+            // The ID arrives as a full 32-bit field. A value beyond the 20-bit ID space whose low
+            // bits fall within the window would pass the test below, and the loop would then
+            // never find it
+            return;
+        }
 
         let base_id = self.base_id;
         let sender_delta = packet_id::sub(sender_next_id, base_id);
